@@ -69,7 +69,8 @@ CHECKS = {
            'helpers that decide which ids the merged table has and where they go - Table._union_id_order (exactly the union of '
            'the two id lists, numbered 0..len-1 without gaps or repeats, in order of first occurrence in a followed by b) and '
            'Table._intersect_id_order (exactly the ids of a that occur in b, numbered without gaps in the order of a; a '
-           'pairwise distinct as the representation invariant says). merge itself and _fast_merge are bounded only.',
+           'pairwise distinct as the representation invariant says), and biom.util.prefer_self, the default metadata policy. merge itself '
+           'and _fast_merge are bounded only.',
            technique=TECH),
  'C10': _b('Contract of Table.concat / biom.concat (blocks unchanged, zero padding, disjointness refused) for k = 1..3 '
            'operands, both axes. Bounded only.'),
